@@ -192,7 +192,8 @@ contract('PartProcessor.shutdown', props=['C13'], args={}, requires=PP_READY,
                                                'self._reserved_resources is old(self._reserved_resources)',
                   **CONT})
 
-ghost_after('PartProcessor._fail', '<entry>', g_ok='True', g_cb='0')
+ghost_after('PartProcessor._fail', '<entry>', g_ok='True', g_cb='0', g_lost='self._part', g_lost_set='False')
+ghost_before('PartProcessor._fail', 'self._shutdown(True, lost_part)', g_lost='lost_part', g_lost_set='True')
 contract('PartProcessor._fail', props=['C13', 'C06', 'C02', 'C11', 'C15'], args={},
          requires=dict(PP_READY, reservation_belongs_to_the_pool=
                        'implies(self._reserved_resources is not None, '
@@ -202,6 +203,7 @@ contract('PartProcessor._fail', props=['C13', 'C06', 'C02', 'C11', 'C15'], args=
              'C13,C02/discards_exactly_the_part_in_process_keeps_the_finished_one':
                  'self._part is None and self._output is old(self._output)',
              'C11/gives_the_resources_back': 'self._reserved_resources is None',
+             'C13,C02/the_part_reported_lost_is_the_one_that_was_in_process': 'g_lost_set and g_lost is old(self._part)',
              'C13,C15/one_failure_record_with_the_lost_part':
                  'any(trace_kind(i) == fn_id("add_datapoint") and trace_ref(i, 0) == "device_failure" and '
                  '    trace_real(i, 0) == self._env._now for i in range(old(trace_len()), trace_len()))',
